@@ -10,7 +10,7 @@ import base64, copy, hashlib, inspect, warnings
 from datetime import timedelta
 
 from .common import Driver, hx, unhx, hn, unhn, outcome, load_repo
-from .c18 import key_tokens, split_packets, rfc_fp, src_hash, packets_of_key, mat_tokens, wallclock
+from .c18 import key_tokens, split_packets, rfc_fp, src_hash, packets_of_key, mat_tokens, wallclock, nondefault_kdf_blob
 
 PUBLIC_TAGS = {6, 14, 13, 17, 2}
 PINS = {
@@ -18,6 +18,7 @@ PINS = {
     'PGPKey.pubkey': '8ca1b2d84e32a4d4',
     'PGPKey.__bytearray__': 'cf5c4a72b4df4a15',
     'KeyAction.check_attributes': '5bc1ee5f304ffbd0',
+    'KeyAction.__call__': '4c949a55df3a3092',
 }
 
 
@@ -215,7 +216,7 @@ def out2(fn):
         return ('raise', (type(ex).__name__, str(ex)))
 
 
-def run_actions(ctx, d, pgpy, suite, obj, label, state, helper, encmsg, expect_refusal):
+def run_actions(ctx, d, pgpy, suite, obj, label, state, helper, encmsg, expect_refusal, add_uid=False):
     """every private operation on `obj`; outcome vs model decision table (state = model kstate fields)"""
     from pgpy.constants import SignatureType
     target_uid = (obj.userids or helper.userids)[0]
@@ -227,18 +228,21 @@ def run_actions(ctx, d, pgpy, suite, obj, label, state, helper, encmsg, expect_r
         'bind': lambda: obj.bind(helper),
         'decrypt': lambda: obj.decrypt(encmsg),
     }
+    if add_uid:
+        # add_uid self-certifies the new user id: the certify row of the table
+        acts['add_uid'] = lambda: obj.add_uid(pgpy.PGPUID.new('Late Uid', email='late@example.com'))
     for a, fn in acts.items():
         with warnings.catch_warnings():
             warnings.simplefilter('ignore')
             got = classify(out2(fn))
         flag_ok = state['flag_ok'].get(a, True)
-        model = d.call('action', a, 1, state['nuids'], int(state['primary']), int(state['public']), int(state['protected']),
+        model = d.call('action', 'certify' if a == 'add_uid' else a, 1, state['nuids'], int(state['primary']), int(state['public']), int(state['protected']),
                        int(state['cleartext']), int(flag_ok), 1)
         case = {'op': 'action', 'action': a, 'object': label, 'state': {k: v for k, v in state.items() if k != 'flag_ok'}}
         ctx.case(suite, (label, a, tuple(sorted(case['state'].items()))), sample=dict(case, impl=got, model=model))
         if expect_refusal and got == 'run':
             ctx.fail(suite, 'a private operation did not raise on an object without usable secret material', case)
-        if model == 'run' and got != 'run' and a in ('revoker', 'bind', 'decrypt', 'revoke', 'certify', 'sign'):
+        if model == 'run' and got != 'run':
             # past the decorator the operation itself may still fail for its own reasons (e.g. the helper key is not a
             # subkey candidate); only the refusal side is compared strictly
             if got.startswith(('attr:', 'incomplete', 'usage', 'nokey')):
@@ -321,12 +325,30 @@ def old_format(data):
     return out
 
 
-def history(ctx, d, pgpy, name, plan, protect=True, oldfmt=False):
+def variant_key(pgpy, name):
+    """'p256' | 'p256/old-format' | 'p256/kdf' -> a fresh private key of that shape"""
+    from .keys import get
+    base, _, var = name.partition('/')
+    key = get(base)
+    if var == 'old-format':
+        key = pgpy.PGPKey.from_blob(old_format(bytes(key)))[0]
+    elif var == 'kdf':
+        blob, changed = nondefault_kdf_blob(key)
+        assert changed, 'no ECDH key packet in ' + base
+        key = pgpy.PGPKey.from_blob(blob)[0]
+    return key
+
+
+def history(ctx, d, pgpy, name, plan, protect=True, oldfmt=False, kdf=False):
     from .keys import get, T0
     from pgpy.constants import SymmetricKeyAlgorithm as S, HashAlgorithm as H
     with warnings.catch_warnings():
         warnings.simplefilter('ignore')
         key = get(name)
+        if kdf:
+            # a private key LOADED with ECDH subkeys whose KDF parameters are not the per-curve defaults: the twin must carry THEM
+            name = name + '/kdf'
+            key = variant_key(pgpy, name)
         if oldfmt:
             # a private key LOADED from old-format packets: its user id / signature packets keep their header format in the twin
             key = pgpy.PGPKey.from_blob(old_format(bytes(key)))[0]
@@ -431,11 +453,42 @@ def suite_usage_table(ctx, d, pgpy):
             run_actions(ctx, d, pgpy, 'actions', obj, label, dict(nuids=1, primary=True, public=public, protected=False, cleartext=True, flag_ok=fo), helper, msg, public)
 
 
+def suite_no_uid(ctx, d, pgpy):
+    """public primary keys WITHOUT a user id (twin derived before any add_uid; a bare public-key packet loaded from bytes):
+    every private operation, certify() and add_uid() included, must raise PGPError (table: certify -> is_public, others -> incomplete)"""
+    from pgpy.constants import KeyFlags as F, PubKeyAlgorithm as A, EllipticCurveOID as C
+    from .keys import T0, get
+    with warnings.catch_warnings():
+        warnings.simplefilter('ignore')
+        helper = pgpy.PGPKey.new(A.EdDSA, C.Ed25519, created=T0)
+        helper.add_uid(pgpy.PGPUID.new('Helper'), usage={F.Sign, F.Certify}, created=T0)
+        msg = pgpy.PGPMessage.new('plain')
+        objs = []
+        for alg, size, nm in ((A.EdDSA, C.Ed25519, 'ed25519'), (A.ECDSA, C.NIST_P256, 'p256')):
+            k = pgpy.PGPKey.new(alg, size, created=T0)
+            objs.append(('no-uid/%s/derived' % nm, k.pubkey, True))
+            objs.append(('no-uid/%s/loaded-packet' % nm, pgpy.PGPKey.from_blob(bytes(k._key.pubkey().__bytearray__()))[0], True))
+            objs.append(('no-uid/%s/private' % nm, k, False))
+        for nm in ('rsa1024', 'p384'):
+            pkt = get(nm)._key.pubkey()
+            objs.append(('no-uid/%s/loaded-packet' % nm, pgpy.PGPKey.from_blob(bytes(pkt.__bytearray__()))[0], True))
+            objs.append(('no-uid/%s/loaded-armored-packet' % nm, pgpy.PGPKey.from_blob(str(pgpy.PGPKey.from_blob(bytes(pkt.__bytearray__()))[0]))[0], True))
+        for label, obj, public in objs:
+            if len(obj.userids) != 0 or obj.is_public != public or not obj.is_primary:
+                ctx.fail('actions', 'harness: object is not a primary key without user id', {'op': 'action', 'object': label}); continue
+            st = dict(nuids=0, primary=True, public=public, protected=False, cleartext=True, flag_ok={})
+            before = bytes(obj)
+            run_actions(ctx, d, pgpy, 'actions', obj, label, st, helper, msg, public, add_uid=public)
+            if public and (bytes(obj) != before or len(obj.userids) != 0):
+                ctx.fail('actions', 'a refused operation changed the public object', {'op': 'action', 'object': label, 'action': 'add_uid'})
+
+
 def suite_pins(ctx, pgpy):
     from pgpy.packet.packets import PrivKeyV4
     from pgpy.decorators import KeyAction
     cur = {'PrivKeyV4.pubkey': src_hash(PrivKeyV4.pubkey), 'PGPKey.pubkey': src_hash(pgpy.PGPKey.pubkey.fget),
-           'PGPKey.__bytearray__': src_hash(pgpy.PGPKey.__bytearray__), 'KeyAction.check_attributes': src_hash(KeyAction.check_attributes)}
+           'PGPKey.__bytearray__': src_hash(pgpy.PGPKey.__bytearray__), 'KeyAction.check_attributes': src_hash(KeyAction.check_attributes),
+           'KeyAction.__call__': src_hash(KeyAction.__call__)}
     for k, v in PINS.items():
         ctx.case('pins', k, nontrivial=False)
         if cur[k] != v:
@@ -482,12 +535,17 @@ def run(ctx):
                               [(n, [rng.choice(STAGES) for _ in range(3)], True) for n in names]):
             if n in names:
                 history(ctx, d, pgpy, n, plan, prot, oldfmt=True)
+        for n, plan, prot in ([('ed25519', ['enc-subkey'], True), ('p256', [], False), ('p384', ['uid'], False), ('p521', [], True)] if q else
+                              [(n, [rng.choice(STAGES) for _ in range(2)], True) for n in ('ed25519', 'ed25519b', 'p256', 'p384', 'p521', 'secp256k1')]):
+            if n in names:
+                history(ctx, d, pgpy, n, plan, prot, kdf=True)
         for n in (['ed25519', 'rsa1024', 'p256'] if q else names):
             if n in names:
                 suite_actions(ctx, d, pgpy, n)
         suite_usage_table(ctx, d, pgpy)
+        suite_no_uid(ctx, d, pgpy)
         ctx.exhaustive.append('KeyAction decision table: 6 private operations x {derived, loaded (binary), loaded (armored), public subkey, '
-                              'private, private locked, private unlocked, twin taken while unlocked, encryption-only key} compared with the model table')
+                              'private, private locked, private unlocked, twin taken while unlocked, encryption-only key, public / private primary WITHOUT user id (+ add_uid)} compared with the model table')
         ctx.notes.append('literal secret search (TESTED, not proved): big- and little-endian octets of every secret integer >= 16 octets and the '
                          'encrypted secret blob, over binary export, de-armored export and armor text; the proved statement is non-interference')
         ctx.notes.append('sha1 oracle calls answered by hashlib: %d' % d.oracle_calls)
@@ -525,9 +583,9 @@ def replay(ctx, case):
     try:
         with warnings.catch_warnings():
             warnings.simplefilter('ignore')
-            if case.get('op') in ('twin', 'forms') and case.get('key') in SPECS:
+            if case.get('op') in ('twin', 'forms') and str(case.get('key')).split('/')[0] in SPECS:
                 name = case['key']
-                key = get(name)
+                key = variant_key(pgpy, name)
                 other = get('ed25519b' if name != 'ed25519b' else 'p256')
                 stages = [x for x in case.get('stage', '').split('+') if x]
                 for i, st in enumerate(x for x in stages if x in STAGES):
@@ -545,6 +603,15 @@ def replay(ctx, case):
                     if bytes(key.pubkey) != base:
                         bad.append('forms')
                 return bool(bad)
+            if case.get('op') == 'action' and case.get('object', '').startswith('no-uid/') and case['state'].get('public'):
+                from pgpy.constants import PubKeyAlgorithm as A, EllipticCurveOID as C
+                k = pgpy.PGPKey.new(A.EdDSA, C.Ed25519, created=T0)
+                obj = k.pubkey if case['object'].endswith('derived') else pgpy.PGPKey.from_blob(bytes(k._key.pubkey().__bytearray__()))[0]
+                helper = get('ed25519b')
+                acts = {'sign': lambda: obj.sign('x'), 'certify': lambda: obj.certify(helper.userids[0]), 'revoke': lambda: obj.revoke(helper.userids[0]),
+                        'revoker': lambda: obj.revoker(helper), 'bind': lambda: obj.bind(helper), 'decrypt': lambda: obj.decrypt(pgpy.PGPMessage.new('x')),
+                        'add_uid': lambda: obj.add_uid(pgpy.PGPUID.new('Late Uid'))}
+                return classify(out2(acts[case['action']])) not in ('attr:is_public', 'incomplete')
             if case.get('op') == 'action' and case.get('object', '').split('/')[0] in SPECS:
                 name, label = case['object'].split('/', 1)
                 key = get(name)
